@@ -2870,7 +2870,7 @@ func (w *worker) assignNextQueuedTask(bq *InMemoryBuildQueue, scq *sizeClassQueu
 			iBest := i.queuedChildren[0]
 			if len(lastInvocationKeys) > 0 && len(workerInvocationStickinessLimits) > 0 {
 				iSticky := i.children[lastInvocationKeys[0]]
-				if iSticky.isQueued() && iSticky.isPreferred(iBest, w.stickinessStartingTimes[0].Add(workerInvocationStickinessLimits[0]).After(bq.now)) {
+				if iSticky.isQueued() && iSticky.isPreferred(iBest, stickinessStartingTimes[0].Add(workerInvocationStickinessLimits[0]).After(bq.now)) {
 					iBest = iSticky
 				}
 				if iBest == iSticky {
